@@ -15,7 +15,7 @@
    event; what IS proved about quiescence is below (C09_quiescent_index_exact,
    C09_done_instances_hold_no_position, C09_no_dispatch_to_dead). *)
 From Coq Require Import NArith List Bool.
-From NG Require Import V2.Index V2.Index_proofs V2.IndexRun V2.Index_examples.
+From NG Require Import V2.Index V2.Index_proofs V2.IndexRun V2.IndexRun_proofs V2.Index_examples.
 Import ListNotations.
 Open Scope N_scope.
 
@@ -75,6 +75,15 @@ Theorem C09_quiescent_index_exact :
     forall n k, count_occ key_dec (ix_get (sn_state sn) n) k = count_occ key_dec (scan prog (sn_state sn) n) k.
 Proof. exact reachable_quiescent_exact. Qed.
 Print Assumptions C09_quiescent_index_exact.
+
+(* the decision procedure evaluated in Coq on the snapshots of the real State is sound: on a
+   snapshot with unique dict keys it implies that the index is exactly the scan *)
+Theorem C09_exactb_sound :
+  forall prog s,
+    WF s -> exactb prog s = true ->
+    forall n k, count_occ key_dec (ix_get s n) k = count_occ key_dec (scan prog s n) k.
+Proof. exact exactb_sound. Qed.
+Print Assumptions C09_exactb_sound.
 
 (* finished or failed instances hold no position *)
 Theorem C09_done_instances_hold_no_position :
